@@ -78,6 +78,29 @@ def two_statement_cases(tier, oracles, bound=1):
     return cases
 
 
+def multi_statement_cases(tier, oracles, bound=1):
+    """three and four statements in one block around a non-random field x: every ordered selection from a
+    menu in which statements link / do not link the random fields - the order in which rand sets are created,
+    merged and referenced again is what is enumerated here"""
+    cases = []
+    R_ = ('f', 'r')
+    for tp, tq, tr in ([(U3, U3, U3)] if tier == 'quick' else [(U3, U3, U3), (U3, S3, U2), (S3, S3, S3)]):
+        fields = [fld('p', tp), fld('q', tq), fld('r', tr), fld('x', U2, rnd=False)]
+        m = [('expr', ('bin', '>', gen.P_, gen.X_)), ('expr', ('bin', '<', gen.Q_, ('lit', 6))), ('expr', ('bin', '<', gen.P_, gen.Q_)),
+             ('expr', ('bin', '>', gen.Q_, gen.X_)), ('expr', ('bin', '!=', R_, gen.X_)), ('expr', ('bin', '<=', R_, gen.P_)),
+             ('expr', ('bin', '==', ('bin', '+', gen.Q_, R_), ('lit', 7))), ('expr', ('bin', '>=', gen.X_, R_)),
+             ('expr', ('bin', '<', gen.X_, ('lit', 2))), ('expr', ('bin', '!=', gen.X_, ('lit', 3)))]   # mention only the non-random field
+        Xs = [{'x': v} for v in range(4)]
+        for n in (3, 4):
+            sel = list(itertools.permutations(range(len(m)), n))
+            if tier == 'quick':
+                sel = [t for i, t in enumerate(sel) if (n == 3 and i % 3 == 0) or (n == 4 and i % 9 == 0)]
+            for t in sel:
+                pr = {'fields': fields, 'block': [m[i] for i in t], 'call': 'randomize'}
+                cases.append({'prog': pr, 'X': Xs, 'bound': bound, 'oracles': oracles})
+    return cases
+
+
 def enum_cases(tier, oracles, bound=1):
     """enum fields: restricted to their enumerators, relations with enumerator literals"""
     cases = []
